@@ -167,6 +167,9 @@ func (b *block) readFrom(r io.ReadCloser) error {
 	b.owner = nil
 	n, err := readToEOF(r, b.data[:])
 	if err != nil {
+		// The data array has been overwritten in part and belongs to
+		// another member anyway; do not keep serving it.
+		b.buf = nil
 		return err
 	}
 	b.buf = bytes.NewReader(b.data[:n])
